@@ -6,7 +6,7 @@ FLAG = ("(2 if (algorithm == 'rsa-sha2-256' or algorithm == 'rsa-sha2-256-cert-v
 
 
 def declare(E):
-    E.declare_ghost(conn_in="bytes", conn_out="bytes", agent_request="bytes", reply_buf="bytes", reply_pos="int")
+    E.declare_ghost(stream_short="bool", conn_in="bytes", conn_out="bytes", agent_request="bytes", reply_buf="bytes", reply_pos="int")
     E.declare_class("paramiko.agent.AgentSSH", {"_conn": "opaque:Conn", "_keys": "opaque:Keys"})
     E.declare_class("paramiko.agent.AgentKey", {"agent": "obj:AgentSSH", "blob": "bytes", "comment": "str",
                                                 "name": "str", "inner_key": "opt[opaque:PKey]"})
@@ -15,14 +15,16 @@ def declare(E):
                ghost={"conn_out": "ghost('conn_out') + data"}, ensures=["result == len(data)"])
     E.contract("Conn.recv", argnames=["self", "n"], returns="bytes",
                ensures=["len(result) <= n", "len(result) <= len(old(ghost('conn_in')))",
-                        "result == old(ghost('conn_in'))[0:len(result)]"],
+                        "result == old(ghost('conn_in'))[0:len(result)]",
+                        # conn_in is everything the agent will ever send: an empty read means end of stream
+                        "implies(n > 0 and len(old(ghost('conn_in'))) > 0, len(result) >= 1)"],
                ghost={"conn_in": "ghost('conn_in')[len(result):]"})
     E.contract(A + "AgentSSH._read_all", params={"wanted": "nat"},
                ensures={"exactly_wanted": "len(result) == wanted",
                         "next_bytes_of_stream": "result + ghost('conn_in') == old(ghost('conn_in'))",
                         "is_prefix": "len(result) <= len(old(ghost('conn_in'))) and result == old(ghost('conn_in'))[0:len(result)]"},
                ghost={"conn_in": "ghost('conn_in')[len(result):]"},
-               raises={"SSHException": "True"},
+               raises={"SSHException": "len(old(ghost('conn_in'))) < wanted"},
                loops={0: dict(inv=["result + ghost('conn_in') == old(ghost('conn_in'))", "len(result) <= wanted"],
                               variant="wanted - len(result)", vars={"extra": "bytes"})},
                returns="bytes", modifies=[])
@@ -38,7 +40,7 @@ def declare(E):
                ghost={"conn_out": "ghost('conn_out') + pack32(len(msg.packet.getvalue())) + msg.packet.getvalue()",
                       "agent_request": "msg.packet.getvalue()", "reply_buf": "result[1].packet.getvalue()",
                       "reply_pos": "result[1].packet.tell()"},
-               raises={"SSHException": "True"},
+               raises={"SSHException": {"when": "(len(old(ghost('conn_in'))) < 4 or len(old(ghost('conn_in'))) - 4 < unpack32(old(ghost('conn_in'))[0:4]))", "ghost": {"stream_short": "True"}}},
                returns="tuple[int,obj:Message]", modifies=["ghost:conn_in"])
     E.contract(A + "AgentKey.asbytes", returns="bytes", ensures=["result == fn('agent_key_blob', 'bytes', self)", "len(result) < 2**20"],
                modifies=[])
@@ -53,5 +55,5 @@ def declare(E):
                        "implies(len(%s) - %s >= 4 and unpack32(%s[%s:%s + 4]) <= len(%s) - %s - 4,"
                        " result == %s[%s + 4:%s + 4 + unpack32(%s[%s:%s + 4])])" % (RB, RP, RB, RP, RP, RB, RP, RB, RP, RP, RB, RP, RP),
                },
-               raises={"SSHException": "True"},
+               raises={"SSHException": "ghost('stream_short') or ghost('reply_type') != 14"},
                returns="bytes", modifies=[])
